@@ -10,7 +10,7 @@ from kern2 import Snap, fr_tok
 
 SPEC = {
     "lean_modules": ["Honeycomb.Props.C14"],
-    "required_theorems": ["C14_D8_witness", "C14_insertVertices_preserves_WF_partial", "C14_insertVertex_preserves_WF",
+    "required_theorems": ["C14_insertVertices_preserves_WF", "C14_insertVertex_preserves_WF",
                           "C14_error_leaves_map_unchanged", "C14_new_vertex_position"],
     "trusted_base": [
         "Lean 4.33 kernel; axioms propext, Classical.choice, Quot.sound only",
@@ -23,7 +23,6 @@ SPEC = {
     "assumptions": [
         "spare darts are distinct in-use (not removed) darts of the map; removed darts are free in the sense of is_free and are "
         "accepted by the code (exercised in the malformed stream, correspondence only)",
-        "single-threaded: the non-transactional is_free reads the map as committed before the enclosing transaction (C08/D3)",
     ],
     "rule": "exhaustive: every WF 2-map with n<=3 darts (removed darts included) x every in-use dart as edge argument (two-dart, one-dart, "
             "1-free at either end, closed face, dangling) x insert_vertex_on_edge (t in {None,1/2,1/4}, both spare orders, nd2 = 0 on "
@@ -39,7 +38,6 @@ SPEC = {
         "exact beta images of a successful call (chain base->nd_1..nd_k->old successor, reversed beta2 pairing, frame): validated by the "
         "oracle on every case, not a theorem",
         "vertex orbits of the end points are unchanged as dart sets (oracle only)",
-        "WF preservation of insert_vertices_on_edge is proved only under the hypothesis excluding D8 (C14_D8_witness shows it is false otherwise)",
     ],
 }
 
@@ -542,14 +540,6 @@ def dedupe(violations):
 
 
 def matches(known, v):
-    """A violation is a known finding iff it is an oracle failure on which model and implementation agree,
-    the finding's signature is one of the failure signatures re-derived from the transcript, and every other
-    signature of the same case is itself a listed C14 finding (so any further failure mode stays a VIOLATION)."""
-    m = known.get("matcher", {})
-    if v.get("kind") != "oracle" or m.get("kind") != "oracle":
-        return False
-    sigs = signatures(v)
-    if "unknown" in sigs or m.get("signature") not in sigs:
-        return False
-    listed = {k["matcher"].get("signature") for k in hv.load_known().get("findings", []) if k["property"] == "C14"}
-    return sigs <= listed
+    """No finding of C14 is open: D8 (/repo e966dbe) and D11 (/repo 54572f5) are repaired, so every oracle failure is a
+    VIOLATION.  `signatures` is kept only to group identical failures in the report."""
+    return False
